@@ -13,7 +13,24 @@ from asyncio_taskpool import SimpleTaskPool, TaskPool
 from asyncio_taskpool.control.parser import ControlParser
 from asyncio_taskpool.control.server import UnixControlServer
 from asyncio_taskpool.control.session import ControlSession
-from asyncio_taskpool.internals.helpers import resolve_dotted_path
+
+
+def resolve_dotted_path(dotted_path):
+    """the harness's OWN resolver (the algorithm of `logging.config`): what a dotted path means *now* — the library's
+    function of the same name is part of the code under test and must not be its own oracle"""
+    import importlib
+    names = dotted_path.split(".")
+    module_name = names.pop(0)
+    found = importlib.import_module(module_name)
+    for name in names:
+        try:
+            found = getattr(found, name)
+        except AttributeError:
+            module_name += f".{name}"
+            importlib.import_module(module_name)
+            found = getattr(found, name)
+    return found
+
 
 from . import control_classes, model, wmod
 
